@@ -133,6 +133,11 @@ type Conn struct {
 
 	deadReads int
 	zeroReads int
+	// linger: -1 default (a close lets what was written reach the peer, then
+	// the end of the stream); 0 after SetLinger(0): an abortive close - what
+	// the peer has not read yet is discarded and it sees a reset
+	linger    int
+	lingerSet bool
 
 	Writes    []WriteRec
 	Deadlines []DeadlineRec
@@ -676,6 +681,16 @@ func (c *Conn) Close() error {
 	c.out.wrClosed = true
 	c.in.rdClosed = true
 	c.in.dropInflight()
+	if c.lingerSet && c.linger == 0 {
+		// SO_LINGER with a zero timeout: the send queue is thrown away and the
+		// peer gets a RST
+		s.CountLocked("net.abortive-close", 1)
+		s.LogLocked("abort", c.name)
+		// (what has already arrived in the peer's receive buffer stays readable:
+		// the conservative reading; the reset surfaces behind it)
+		c.out.dropInflight()
+		c.out.reset = true
+	}
 	if c.rdTimer != nil {
 		c.rdTimer.Stop()
 	}
@@ -689,6 +704,23 @@ func (c *Conn) Close() error {
 	c.in.wakeWriter()
 	return nil
 }
+
+// SetLinger, SetNoDelay, SetKeepAlive, SetKeepAlivePeriod: the socket options
+// of *net.TCPConn (code under test reaches them through a type assertion
+// that the build redirects to this type).  Only SetLinger(0) changes what the
+// simulation does.
+func (c *Conn) SetLinger(sec int) error {
+	c.net.S.Lock()
+	defer c.net.S.Unlock()
+	if c.closed {
+		return closedErr("set")
+	}
+	c.linger, c.lingerSet = sec, sec >= 0
+	return nil
+}
+func (c *Conn) SetNoDelay(bool) error                  { return nil }
+func (c *Conn) SetKeepAlive(bool) error                { return nil }
+func (c *Conn) SetKeepAlivePeriod(time.Duration) error { return nil }
 
 // CloseWrite half-closes (FIN) like *net.TCPConn.
 func (c *Conn) CloseWrite() error {
